@@ -2,7 +2,7 @@
    with encode=0, property_items / content_lines / to_ical.  Typed values are seen by the tree
    as (class name, parameters, wire text = value.to_ical()); the value codecs themselves are a
    parameter [dec] of the parser (C03, C07, C19 are about them).  Definitions only. *)
-Require Import Lib.Base Lib.Chain Gen.Gen_parser Gen.Gen_cal Model.Text Model.Params Model.Fold Model.Contentline.
+Require Import Lib.Base Lib.Chain Gen.Gen_parser Gen.Gen_cal Model.Text Model.Params Model.Fold Model.Contentline Model.Sort.
 From Coq Require Import String.
 Local Open Scope string_scope.
 
@@ -160,15 +160,7 @@ Definition parse (dec : decoder) (cache0 : list (res unit)) (multiple : bool) (s
 Fixpoint index_of (k : list N) (l : list (list N)) (i : nat) : option nat :=
   match l with [] => None | x :: r => if str_eqb x k then Some i else index_of k r (S i) end.
 
-Fixpoint insert_by {A} (le : A -> A -> bool) (e : A) (l : list A) : list A :=
-  match l with
-  | [] => [e]
-  | x :: r => if le e x then e :: l else x :: insert_by le e r
-  end.
-(* stable insertion sort: later equal elements stay later (Python's sorted is stable) *)
-Definition sort_by {A} (le : A -> A -> bool) (l : list A) : list A :=
-  fold_right (fun e acc => insert_by le e acc) [] l.
-
+(* Python's sorted: the stable insertion sort of Model/Sort.v *)
 Definition canonsort_keys (keys canonical : list (list N)) : list (list N) :=
   let head := filter (fun k => match index_of k canonical O with Some _ => true | None => false end) keys in
   let tail := filter (fun k => match index_of k canonical O with Some _ => false | None => true end) keys in
